@@ -94,8 +94,8 @@ class WellFormed(BoolExpr):
         # kind structure
         if kind == "Simple":
             obs.append(("SimpleShape with several boundaries", Fls if st.get("simple_one_boundary") else T, {}))
-        if kind == "Connected":
-            subs = reg[1]
+        def connected_bad(creg):
+            subs = creg[1]
             pos = [s for s in subs if s[2]]
             neg = [s for s in subs if not s[2]]
             bad = []
@@ -111,6 +111,16 @@ class WellFormed(BoolExpr):
                             # ... and not strictly inside another hole's bounded side
                             inside_hole = z3.Not(R.z_in(h2, v[0], v[1]))  # h2 is cw: region = outside; not in = inside the hole (or on it)
                             bad.append(z3.And(inside_hole, z3.Not(R.z_on_boundary(v[0], v[1], [h2[1]]))))
+            return bad
+
+        if kind == "Connected":
+            bad = connected_bad(reg)
+            obs.append(("ConnectedShape is not one outer/unbounded region minus separate holes", z3.Or(bad) if bad else Fls, {}))
+        if kind == "Disjoint":
+            bad = []
+            for sub in reg[1]:
+                if sub[0] == "and":
+                    bad += connected_bad(sub)
             obs.append(("ConnectedShape is not one outer/unbounded region minus separate holes", z3.Or(bad) if bad else Fls, {}))
         if kind == "Disjoint":
             subs = reg[1]
@@ -161,18 +171,20 @@ class WellFormed(BoolExpr):
                         return True, base + f" edges {e[0]}-{e[1]} and {e[2]}-{e[3]} cross"
             return False, base
         if name.startswith("ConnectedShape is not"):
-            subs = reg[1]
-            pos = [s for s in subs if s[2]]
-            neg = [s for s in subs if not s[2]]
-            if len(pos) > 1:
-                return True, base + " has two outer boundaries"
-            for h in neg:
-                for v in h[1]:
-                    if pos and not R.x_in(pos[0], v) and R.x_dist2_boundary(v, [pos[0][1]]) != 0:
-                        return True, base + f": hole vertex {v} outside the outer boundary"
-                    for h2 in neg:
-                        if h2 is not h and not R.x_in(h2, v) and R.x_dist2_boundary(v, [h2[1]]) != 0:
-                            return True, base + f": hole vertex {v} inside another hole"
+            cregs = [reg] if d["kind"] == "Connected" else [r for r in reg[1] if r[0] == "and"]
+            for creg in cregs:
+                subs = creg[1]
+                pos = [s for s in subs if s[2]]
+                neg = [s for s in subs if not s[2]]
+                if len(pos) > 1:
+                    return True, base + " has two outer boundaries"
+                for h in neg:
+                    for v in h[1]:
+                        if pos and not R.x_in(pos[0], v) and R.x_dist2_boundary(v, [pos[0][1]]) != 0:
+                            return True, base + f": hole vertex {v} outside the outer boundary"
+                        for h2 in neg:
+                            if h2 is not h and not R.x_in(h2, v) and R.x_dist2_boundary(v, [h2[1]]) != 0:
+                                return True, base + f": hole vertex {v} inside another hole"
             return False, base
         if name == "DisjointShape components overlap":
             subs = reg[1]
@@ -210,8 +222,11 @@ class SingletonLaw(BoolExpr):
         env["B2"] = geom.make(self.B, tx, ty)
         if self.history:  # the law must also hold for a shape that was used before and then moved in place
             for key in ("B", "B2"):
-                env[key] | env["A"]
-                env[key] in env["A"]
+                try:
+                    env[key] | env["A"]
+                    env[key] in env["A"]
+                except Exception:  # the earlier use is only there to warm caches; its own failures are C01's subject
+                    pass
                 env[key].move(40, 0)
         e, want = self.LAWS[self.law]
         Rs = ev_shape(e, env)
